@@ -18,7 +18,7 @@ def run(patch, checks, tier='quick', keep=False):
         shutil.rmtree(d, ignore_errors=True)
         return {'error': 'patch does not apply: ' + r.stderr[:300]}
     res = {}
-    env = dict(os.environ, VERIF_REPO=repo)
+    env = dict(os.environ, VERIF_REPO=repo, VERIF_EVIDENCE_DIR=os.path.join(d, 'evidence'), VERIF_REPLAYS_DIR=os.path.join(d, 'replays'))
     for c in checks:
         t = time.time()
         p = subprocess.run([os.path.join(V, 'check'), c, '--tier', tier], cwd=V, env=env, capture_output=True, text=True)
